@@ -2093,7 +2093,9 @@ impl fmt::Display for Group<'_> {
             group_str.push_str(gc_str.trim_start());
           }
         } else {
-          group_str.push_str(&gc.to_string());
+          // gc_str is still the unmodified rendering here; rendering the
+          // choice a second time doubles the work at every nesting level
+          group_str.push_str(&gc_str);
         }
 
         if self.group_choices.len() > 2 && gc.group_entries.len() <= 3 {
